@@ -663,6 +663,17 @@ func drawCanvas(env *Env, d *Drawing) *canvas.Canvas {
 		}
 		ctx.Pop()
 	}
+	switch d.Post {
+	case 1:
+		c.Fit(2)
+	case 2:
+		c.Clip(canvas.Rect{X0: 5, Y0: 5, X1: 45, Y1: 30})
+	case 3:
+		c.Transform(canvas.Identity.Shear(0.2, 0).Translate(3, 1))
+	case 4:
+		c.Fit(0)
+		c.Transform(canvas.Identity.Scale(0.5, 0.5))
+	}
 	return c
 }
 
@@ -700,7 +711,8 @@ func genImage(it *DrawItem) image.Image {
 	return img
 }
 
-func renderOnce(c *canvas.Canvas, d *Drawing, st *Step) Result {
+func renderOnce(c *canvas.Canvas, d0 *Drawing, st *Step) Result {
+	d := struct{ W, H float64 }{c.W, c.H} // Fit/Clip change the canvas size
 	sink := &faultySink{failAt: st.FailAt}
 	buf := sink
 	var err error
